@@ -269,10 +269,7 @@ func genTblCase(r *vlib.RNG, small bool, thorough bool) tblCase {
 }
 
 func runTables(c *ctx, r *vlib.RNG) []string {
-	n, nk := 260, 36
-	if c.a.Thorough() {
-		n, nk = 12000, 160
-	}
+	n, nk := c.budget().tblN, c.budget().tblK
 	type job struct {
 		tc tblCase
 		k  bool
@@ -282,7 +279,7 @@ func runTables(c *ctx, r *vlib.RNG) []string {
 		jobs = append(jobs, job{genTblCase(r, true, false), true})
 	}
 	// FilterBaseLg >= 64: the writer cannot be created
-	jobs = append(jobs, job{tblCase{Kind: "table", Seed: r.Uint64(), Bpk: 10, Lg: 64, BlockSize: 64, Restart: 16, NKeys: 3, ValMax: 4}, true})
+	jobs = append(jobs, job{tblCase{Kind: "table", Seed: r.Uint64(), Bpk: 10, Lg: 64, BlockSize: 64, Restart: 16, NKeys: 3, ValMax: 4}, nk > 0})
 	for i := 0; i < n; i++ {
 		jobs = append(jobs, job{genTblCase(r, false, c.a.Thorough()), false})
 	}
